@@ -41,21 +41,21 @@ PROPS = {
     "C04": dict(
         props="props/C04.v",
         streams=[dict(name="core-c04")],
-        decisive_codes=None,
+        decisive_codes=[4],
         modelled='generator/generator.go Build/Assign/callExisting/shouldCreateSubMethod/createSubMethod/buildMethod/convertTo/buildMethods, generator/setup.go, generator/validate.go, builder/{basic,pointer,list,map,struct,skipcopy}.go, xtype/type.go (TypeOf flags, FindField, asID), namer.Name (Gen.v, Plan.v, Eval.v); BuildSteps order and every Matches predicate, isEnum, findUnderlyingExtendMapping, shouldCheckAgainstZero are regenerated from the source (Extracted.v); not yet in the model (class D_UNMODELLED): custom functions, enums, error results, contexts, default constructors, struct-method sources',
         assumptions=['the meaning of each emitted code template (make, range, &x, nil guards) is assigned by Eval.v and validated only by executing the compiled output', 'values are finite and acyclic; map key conversions are injective on the generated values', "the harness' own reading of the boolean settings lines (the C12 model covers the settings parser)"],
     ),
     "C05": dict(
         props="props/C05.v",
         streams=[dict(name="core-c05")],
-        decisive_codes=None,
+        decisive_codes=[2],
         modelled='generator/generator.go Build/Assign/callExisting/shouldCreateSubMethod/createSubMethod/buildMethod/convertTo/buildMethods, generator/setup.go, generator/validate.go, builder/{basic,pointer,list,map,struct,skipcopy}.go, xtype/type.go (TypeOf flags, FindField, asID), namer.Name (Gen.v, Plan.v, Eval.v); BuildSteps order and every Matches predicate, isEnum, findUnderlyingExtendMapping, shouldCheckAgainstZero are regenerated from the source (Extracted.v); not yet in the model (class D_UNMODELLED): custom functions, enums, error results, contexts, default constructors, struct-method sources',
         assumptions=['the meaning of each emitted code template (make, range, &x, nil guards) is assigned by Eval.v and validated only by executing the compiled output', 'values are finite and acyclic; map key conversions are injective on the generated values', "the harness' own reading of the boolean settings lines (the C12 model covers the settings parser)"],
     ),
     "C06": dict(
         props="props/C06.v",
         streams=[dict(name="core-c06")],
-        decisive_codes=[2, 9],
+        decisive_codes=[1, 2, 9],
         modelled='generator/generator.go Build/Assign/callExisting/CallMethod/ReturnError/requireContext/delegateMethod/wrap/shouldCreateSubMethod/createSubMethod/buildMethod/convertTo/buildMethods, generator/setup.go (extend index with RegisterOverrideOverlapping, Register overlap check), method/index.go Get/Has, generator/validate.go, builder/{basic,pointer,list,map,struct,skipcopy,default,errorpath,underlying}.go incl. mapField (paths, struct-method sources, map ... | FUNC) and buildTargetVar (default FUNC, default:update), xtype/type.go (TypeOf flags, FindField, asID), namer.Name (Gen.v, Plan.v, Eval.v, Funcs.v); roles of function parameters by the Sig model of method.Parse; BuildSteps order and every Matches predicate, isEnum, findUnderlyingExtendMapping, shouldCheckAgainstZero are regenerated from the source (Extracted.v); builder/enum.go (Enum.Build, caseAction, duplicate-value handling, transformers as rewriting results) and xtype/enum.go; not in the model (class D_UNMODELLED): generic functions, multi-source functions, map . F | FUNC with the enclosing pointer',
         assumptions=['the meaning of each emitted code template (make, range, &x, nil guards, x, err := f(..); if err != nil { return .., wrap(err) }) is assigned by Eval.v and validated only by executing the compiled output', 'custom functions are the deterministic oracle of Val.mark / mark_token / fn_fails (the harness generates Go bodies computing the same function via package sup); which functions a goverter:extend pattern matches and which parameter names match arg:context:regex is computed by the harness with Go regexp', 'values are finite and acyclic; map key conversions are injective on the generated values', "the harness' own reading of the boolean settings lines (the C12 model covers the settings parser)"],
     ),
@@ -76,7 +76,7 @@ PROPS = {
     "C11": dict(
         props="props/C11.v",
         streams=[dict(name="core-c11")],
-        decisive_codes=None,
+        decisive_codes=[2],
         modelled='generator/generator.go Build/Assign/callExisting/shouldCreateSubMethod/createSubMethod/buildMethod/convertTo/buildMethods, generator/setup.go, generator/validate.go, builder/{basic,pointer,list,map,struct,skipcopy}.go, xtype/type.go (TypeOf flags, FindField, asID), namer.Name (Gen.v, Plan.v, Eval.v); BuildSteps order and every Matches predicate, isEnum, findUnderlyingExtendMapping, shouldCheckAgainstZero are regenerated from the source (Extracted.v); not yet in the model (class D_UNMODELLED): custom functions, enums, error results, contexts, default constructors, struct-method sources',
         assumptions=['the meaning of each emitted code template (make, range, &x, nil guards) is assigned by Eval.v and validated only by executing the compiled output', 'values are finite and acyclic; map key conversions are injective on the generated values', "the harness' own reading of the boolean settings lines (the C12 model covers the settings parser)"],
     ),
@@ -84,21 +84,21 @@ PROPS = {
         props="props/C01.v",
         libs=["theories/CaseLib.vo", "theories/Namer.vo"],
         streams=[dict(name="namer"), dict(name="core-c01")],
-        decisive_codes=None,
+        decisive_codes=[8],
         modelled='generator/generator.go Build/Assign/callExisting/shouldCreateSubMethod/createSubMethod/buildMethod/convertTo/buildMethods, generator/setup.go, generator/validate.go, builder/{basic,pointer,list,map,struct,skipcopy}.go, xtype/type.go (TypeOf flags, FindField, asID), namer.Name (Gen.v, Plan.v, Eval.v); BuildSteps order and every Matches predicate, isEnum, findUnderlyingExtendMapping, shouldCheckAgainstZero are regenerated from the source (Extracted.v); not yet in the model (class D_UNMODELLED): custom functions, enums, error results, contexts, default constructors, struct-method sources',
         assumptions=['the meaning of each emitted code template (make, range, &x, nil guards) is assigned by Eval.v and validated only by executing the compiled output', 'values are finite and acyclic; map key conversions are injective on the generated values', "the harness' own reading of the boolean settings lines (the C12 model covers the settings parser)"],
     ),
     "C18": dict(
         props="props/C18.v",
         streams=[dict(name="core-c18")],
-        decisive_codes=None,
+        decisive_codes=[7],
         modelled='generator/generator.go Build/Assign/callExisting/shouldCreateSubMethod/createSubMethod/buildMethod/convertTo/buildMethods, generator/setup.go, generator/validate.go, builder/{basic,pointer,list,map,struct,skipcopy}.go, xtype/type.go (TypeOf flags, FindField, asID), namer.Name (Gen.v, Plan.v, Eval.v); BuildSteps order and every Matches predicate, isEnum, findUnderlyingExtendMapping, shouldCheckAgainstZero are regenerated from the source (Extracted.v); not yet in the model (class D_UNMODELLED): custom functions, enums, error results, contexts, default constructors, struct-method sources',
         assumptions=['the meaning of each emitted code template (make, range, &x, nil guards) is assigned by Eval.v and validated only by executing the compiled output', 'values are finite and acyclic; map key conversions are injective on the generated values', "the harness' own reading of the boolean settings lines (the C12 model covers the settings parser)"],
     ),
     "C10": dict(
         props="props/C10.v",
         streams=[dict(name="core-c10")],
-        decisive_codes=None,
+        decisive_codes=[2],
         modelled='generator/generator.go Build/Assign/callExisting/shouldCreateSubMethod/createSubMethod/buildMethod/convertTo/buildMethods, generator/setup.go, generator/validate.go, builder/{basic,pointer,list,map,struct,skipcopy}.go, xtype/type.go (TypeOf flags, FindField, asID), namer.Name (Gen.v, Plan.v, Eval.v); BuildSteps order and every Matches predicate, isEnum, findUnderlyingExtendMapping, shouldCheckAgainstZero are regenerated from the source (Extracted.v); not yet in the model (class D_UNMODELLED): custom functions, enums, error results, contexts, default constructors, struct-method sources',
         assumptions=['the meaning of each emitted code template (make, range, &x, nil guards) is assigned by Eval.v and validated only by executing the compiled output', 'values are finite and acyclic; map key conversions are injective on the generated values', "the harness' own reading of the boolean settings lines (the C12 model covers the settings parser)"],
     ),
